@@ -37,6 +37,8 @@ def exhaustive(tier):
 def units(tier):
     out = [{'k': 'rt', 'lo': lo, 'hi': min(RT_MAX[tier] + 1, lo + RT_CHUNK)} for lo in range(1, RT_MAX[tier] + 1, RT_CHUNK)]
     out += [{'k': 'rand', 'i': i} for i in range(N_CASES[tier])]
+    # grids that are large in all three directions at once (tens of millions of voxels)
+    out += [{'k': 'big3d', 'i': i} for i in range(1 if tier == 'quick' else 4)]
     return out
 
 
@@ -84,9 +86,40 @@ def run_roundtrip(unit, rng, ctx):
     ctx.count('roundtrip_indices', sum(3 * n for n in range(unit['lo'], unit['hi'])))
 
 
+def run_big3d(unit, rng, ctx):
+    """A fine grid on a large cell: a few hundred voxels along EVERY axis (the requested resolution is honoured)."""
+    lens = rng.uniform(25.0, 29.0, size=3)
+    m = geom.matrix_from_parameters(*lens, 90, float(rng.choice([90, 95])), 90)
+    if rng.integers(2):
+        m = m @ geom.random_rotation(rng).T
+    lengths = np.linalg.norm(m, axis=1)
+    res = float(rng.uniform(0.098, 0.104))
+    T, N = int(rng.integers(2, 6)), int(rng.integers(1, 4))
+    X = rng.uniform(0, 1, size=(T, N, 3))
+    traj = gen.make_trajectory(m, gen.species_objects(['Li'] * N), X)
+    vol = traj.to_volume(resolution=res)
+    data = np.asarray(vol.data)
+    n = np.array(data.shape)
+    what = f'large cell {np.round(lengths, 2).tolist()} resolution={res:.4f} grid {n.tolist()}'
+    size = lengths / n
+    ctx.check(bool(np.all(size >= res * (1 - 1e-12)) and np.all(size < 2 * res * (1 + 1e-12))), f'{what}: voxel edges {size.tolist()} not in [resolution, 2 x resolution)', {'matrix': m, 'resolution': res})
+    ctx.check(int(data.sum()) == T * N, f'{what}: voxel sum {int(data.sum())} != frames x atoms {T * N}')
+    idx = np.floor(X.reshape(-1, 3) * n).astype(int)
+    want = {}
+    for i_ in map(tuple, idx):
+        want[i_] = want.get(i_, 0) + 1
+    got = {tuple(int(x) for x in ix): int(data[tuple(ix)]) for ix in np.argwhere(data)}
+    ctx.check(got == want, f'{what}: occupied voxels {sorted(got.items())[:4]} are not floor(x * n) of the samples {sorted(want.items())[:4]}')
+    ctx.count('grids_large_in_all_three_directions')
+    ctx.count('voxels_in_the_largest_grid', int(data.size))
+    ctx.case(f'big3d{unit["i"]}', True, sample={'kind': 'big3d', 'grid': n.tolist(), 'voxels': int(data.size), 'resolution': res})
+
+
 def run_unit(unit, rng, ctx):
     if unit['k'] == 'rt':
         return run_roundtrip(unit, rng, ctx)
+    if unit['k'] == 'big3d':
+        return run_big3d(unit, rng, ctx)
     kind, rot, m = geom.random_lattice(rng, lo=3.0, hi=10.0)
     long_axis = unit['i'] % 8 == 3
     if long_axis:
